@@ -19,7 +19,8 @@ From Coq Require Import List NArith Bool.
 From V.gen Require Consts.
 From V.common Require Import Varint.
 Require V.C18.Model.
-From V.C01 Require Import Model Proofs.
+Require V.C02.Model V.C02.Proofs.
+From V.C01 Require Import Model Proofs Early Symbolic.
 Import ListNotations.
 Open Scope N_scope.
 
@@ -129,6 +130,173 @@ Theorem C01_reject_regardless_of_dialed :
     accept on_curve verify pb rs dialed = Reject e.
 Proof. exact reject_regardless_of_dialed. Qed.
 Print Assumptions C01_reject_regardless_of_dialed.
+
+(* ---- the payload parser on non-canonical inputs (the general statement is the decoder itself;
+   these two instances pin the behaviours the property text names) ---- *)
+(* a repeated identity_key: the last one wins *)
+Theorem C01_payload_last_key_wins :
+  forall k1 k2 sg,
+    len k1 < 128 -> len k2 < 128 -> len sg < 128 ->
+    decode_payload ([10; len k1] ++ k1 ++ [10; len k2] ++ k2 ++ [18; len sg] ++ sg)
+    = Some (mkPayload (Some k2) (Some sg)).
+Proof. exact decode_payload_last_key_wins. Qed.
+Print Assumptions C01_payload_last_key_wins.
+
+(* an unknown field (tag 3, varint) is skipped *)
+Theorem C01_payload_unknown_field_skipped :
+  forall key v sg,
+    len key < 128 -> v < 128 -> len sg < 128 ->
+    decode_payload ([10; len key] ++ key ++ [24; v] ++ [18; len sg] ++ sg)
+    = Some (mkPayload (Some key) (Some sg)).
+Proof. exact decode_payload_unknown_field_skipped. Qed.
+Print Assumptions C01_payload_unknown_field_skipped.
+
+(* ---- the TLS caller (QUIC): crypto/tls/certificate.rs::parse + verifier.rs, after the X.509 layer
+   (x509-parser, certificate validity and self-signature checked with ring: trusted).  The model
+   walks the certificate's extensions in order, as parse_unverified does ---- *)
+(* the only way to be accepted: among extensions that are skipped (another OID, not critical)
+   exactly one extension with the libp2p OID, well formed, whose key blob is admitted (same
+   admission as above), whose signature verifies over P2P_SIGNING_PREFIX ++ the certificate's
+   SubjectPublicKeyInfo, the id being derived from that key and equal to the dialed peer when there
+   is one (verify_server_cert; verify_client_cert has none) *)
+Theorem C01_tls_accept_sound :
+  forall on_curve verify l spki expected p,
+    tls_accept on_curve verify l spki expected = Accept p ->
+    exists l1 kb sg l2 k,
+      l = l1 ++ XP2p (Some (kb, sg)) :: l2 /\ Forall ignorable l1 /\ Forall ignorable l2 /\
+      decode_pubkey on_curve kb = KeyOk k /\
+      verify k (TLS_PREFIX ++ spki) sg = true /\
+      p = peer_id_of_key k /\ (expected = None \/ expected = Some p).
+Proof. exact tls_accept_sound. Qed.
+Print Assumptions C01_tls_accept_sound.
+
+Theorem C01_tls_accept_complete :
+  forall on_curve verify l1 kb sg l2 k spki expected,
+    Forall ignorable l1 -> Forall ignorable l2 ->
+    decode_pubkey on_curve kb = KeyOk k -> verify k (TLS_PREFIX ++ spki) sg = true ->
+    (expected = None \/ expected = Some (peer_id_of_key k)) ->
+    tls_accept on_curve verify (l1 ++ XP2p (Some (kb, sg)) :: l2) spki expected = Accept (peer_id_of_key k).
+Proof. exact tls_accept_complete. Qed.
+Print Assumptions C01_tls_accept_complete.
+
+Theorem C01_tls_dialed_mismatch :
+  forall on_curve verify l spki p q,
+    tls_verify on_curve verify l spki = Accept p -> q <> p ->
+    tls_accept on_curve verify l spki (Some q) = Reject EMismatch.
+Proof. exact tls_reject_mismatch. Qed.
+Print Assumptions C01_tls_dialed_mismatch.
+
+(* a critical extension the verifier does not understand, anywhere in the certificate, and a second
+   extension with the libp2p OID, whatever the two hold: never accepted *)
+Theorem C01_tls_critical_or_duplicate_refused :
+  forall on_curve verify spki expected p,
+    (forall l, In (XOther true) l -> tls_accept on_curve verify l spki expected <> Accept p) /\
+    (forall la c1 lb c2 lc,
+       tls_accept on_curve verify (la ++ XP2p c1 :: lb ++ XP2p c2 :: lc) spki expected <> Accept p).
+Proof.
+  intros oc vf spki e p. split.
+  - intros l. exact (tls_critical_refused oc vf l spki e p).
+  - intros la c1 lb c2 lc. exact (tls_duplicate_refused oc vf la c1 lb c2 lc spki e p).
+Qed.
+Print Assumptions C01_tls_critical_or_duplicate_refused.
+
+(* key types: a key blob whose Type field is not Ed25519 (RSA = 0 — the cargo feature `rsa` is off —,
+   Secp256k1 = 2, ECDSA = 3, any other number) is never accepted, neither in a Noise identity payload
+   nor in a certificate extension: no "accept by default" for key types litep2p cannot verify *)
+Theorem C01_non_ed25519_never_accepted :
+  forall on_curve verify kb m,
+    decode_keymsg kb = Some m -> k_type m <> 1 ->
+    (forall pb pl rs d p, decode_payload pb = Some pl -> p_key pl = Some kb ->
+       accept on_curve verify pb rs d <> Accept p) /\
+    (forall l sg spki e p, In (XP2p (Some (kb, sg))) l -> tls_accept on_curve verify l spki e <> Accept p).
+Proof. exact non_ed25519_never_accepted. Qed.
+Print Assumptions C01_non_ed25519_never_accepted.
+
+(* under the single-message hypothesis: an extension made for one certificate key is refused in a
+   certificate with another key *)
+Theorem C01_tls_binding :
+  forall (on_curve : bytes -> bool) (verify : bytes -> bytes -> bytes -> bool),
+    (forall pk m m' sg, verify pk m sg = true -> verify pk m' sg = true -> m = m') ->
+    forall l spki spki' e' p',
+      tls_accept on_curve verify l spki' e' = Accept p' -> spki <> spki' ->
+      forall e, tls_accept on_curve verify l spki e = Reject ETlsIssuer.
+Proof. exact tls_binding. Qed.
+Print Assumptions C01_tls_binding.
+
+(* ---- every caller of the identity check, and the transport manager behind them ---- *)
+(* `dial_outcome t addr_peer dialed ev`: a connection dialed through the manager on transport t,
+   `addr_peer` the /p2p part of the address handed to the transport (TCP: optional; WebSocket and
+   QUIC refuse an address without it; WebRTC cannot dial), `dialed` the peer the manager recorded in
+   pending_connections, `ev` what the remote presented (Noise payload + static key, or certificate
+   extensions + SPKI).  On EVERY transport an accepted connection is to the dialed peer and rests on
+   authentic evidence: the transport compares, and where it does not (TCP, address without /p2p)
+   TransportManager::on_connection_established does *)
+Theorem C01_every_dial_checked :
+  forall on_curve verify t addr_peer dialed ev p,
+    dial_outcome on_curve verify t addr_peer dialed ev = Some (Accept p) ->
+    p = dialed /\ authentic on_curve verify ev p.
+Proof. exact every_dial_checked. Qed.
+Print Assumptions C01_every_dial_checked.
+
+(* when the address names the dialed peer (the manager dials only such addresses) the transport's
+   own comparison decides and the manager's changes nothing; without /p2p on TCP the transport
+   accepts whoever authenticates and the manager refuses the connection *)
+Theorem C01_transport_and_manager_checks :
+  forall on_curve verify,
+    (forall t dialed ev, t <> TWebRtc ->
+       dial_outcome on_curve verify t (Some dialed) dialed ev =
+       transport_verdict on_curve verify t (Some dialed) ev) /\
+    (forall pb rs p dialed,
+       verify_identity on_curve verify pb rs = Accept p -> dialed <> p ->
+       transport_verdict on_curve verify TTcp None (EvNoise pb rs) = Some (Accept p) /\
+       dial_outcome on_curve verify TTcp None dialed (EvNoise pb rs) = Some (Reject EMismatch)) /\
+    (forall t addr_peer dialed ev r,
+       dial_outcome on_curve verify t addr_peer dialed ev = Some r ->
+       t = TTcp \/ (addr_peer <> None /\ (t = TWebSocket \/ t = TQuic))).
+Proof.
+  intros oc vf. split; [|split].
+  - exact (transport_check_suffices oc vf).
+  - exact (tcp_without_p2p_caught_by_manager oc vf).
+  - exact (no_dial_without_expectation oc vf).
+Qed.
+Print Assumptions C01_transport_and_manager_checks.
+
+(* inbound connections (all four transports; WebRTC only has these): whoever is reported presented
+   authentic evidence *)
+Theorem C01_inbound_authentic :
+  forall on_curve verify t ev p,
+    inbound_outcome on_curve verify t ev = Some (Accept p) -> authentic on_curve verify ev p.
+Proof. exact inbound_authentic. Qed.
+Print Assumptions C01_inbound_authentic.
+
+(* ---- framing of the handshake messages: what first_message / second_message write is read back
+   exactly by read_handshake_message and nothing behind it is touched (no read-ahead); the
+   listener's handshake consumes exactly its two frames, early data stays on the stream ---- *)
+Theorem C01_handshake_framing :
+  (forall b rest, len b < 65536 -> read_frame (frame b ++ rest) = Some (b, rest)) /\
+  (forall s b r, bytes_ok s = true -> read_frame s = Some (b, r) -> s = frame b ++ r /\ len b < 65536) /\
+  (forall s m1 m3 rest, bytes_ok s = true -> listener_reads s = Some (m1, m3, rest) ->
+     s = frame m1 ++ frame m3 ++ rest) /\
+  (forall m1 m3 rest, len m1 < 65536 -> len m3 < 65536 ->
+     listener_reads (frame m1 ++ frame m3 ++ rest) = Some (m1, m3, rest)).
+Proof.
+  split; [exact read_frame_frame|]. split; [exact read_frame_exact|].
+  split; [exact listener_reads_exact|exact listener_reads_frames].
+Qed.
+Print Assumptions C01_handshake_framing.
+
+(* the identity payload of an honest node has 104 bytes whatever the keys: messages of 32, 200 and
+   168 bytes, inside the write buffers (256 / 2048) and the u16 length prefix *)
+Theorem C01_honest_message_sizes :
+  forall sign idk static,
+    length idk = 32%nat -> length (sign idk (DOMAIN ++ static)) = 64%nat ->
+    length (honest_payload sign idk static) = 104%nat /\
+    msg1_len = 32 /\ msg2_len 104 = 200 /\ msg3_len 104 = 168.
+Proof.
+  intros sign idk static Lk Ls. split; [exact (honest_payload_length sign idk static Lk Ls)|].
+  repeat split; reflexivity.
+Qed.
+Print Assumptions C01_honest_message_sizes.
 
 (* ---- binding to the static key of this very session ---- *)
 (* under the single-message hypothesis on `verify` (the unforgeability idealisation, listed in
@@ -286,7 +454,7 @@ Theorem C01_transcript_honest_partial :
   forall on_curve verify (H : list item -> bytes) (KDF : list bytes -> bytes)
          (pubk : N -> bytes) (dh : N -> bytes -> bytes),
     (forall x y, dh x (pubk y) = dh y (pubk x)) ->
-    forall D L,
+    forall D L, pro D = pro L ->
       let a := forward on_curve verify H KDF pubk dh D L in
       no_forgery on_curve verify H KDF pubk dh D L a /\
       snd (run_d on_curve verify H KDF pubk dh D a) =
@@ -295,15 +463,219 @@ Theorem C01_transcript_honest_partial :
        run_l on_curve verify H KDF pubk dh L a =
         outcome_of (check_dialed (dialed_of L) (verify_identity on_curve verify (pay D) (pubk (sta D))))).
 Proof.
-  intros oc vf H KDF pubk dh comm D L. split; [|split].
+  intros oc vf H KDF pubk dh comm D L EP. split; [|split].
   - exact (forward_no_forgery oc vf H KDF pubk dh D L).
-  - exact (honest_dialer oc vf H KDF pubk dh comm D L).
-  - exact (honest_listener oc vf H KDF pubk dh comm D L).
+  - exact (honest_dialer oc vf H KDF pubk dh comm D L EP).
+  - exact (honest_listener oc vf H KDF pubk dh comm D L EP).
 Qed.
 Print Assumptions C01_transcript_honest_partial.
 
 (* the handshake hash used in the runs is injective: the hypothesis is satisfiable *)
-Theorem C01_transcript_hash_instance_partial :
+Theorem C01_transcript_hash_instance :
   forall a b, H_inst a = H_inst b -> a = b.
 Proof. exact H_inst_inj. Qed.
-Print Assumptions C01_transcript_hash_instance_partial.
+Print Assumptions C01_transcript_hash_instance.
+
+(* ---- the prologue (WebRTC: "libp2p-webrtc-noise:" ++ the two DTLS fingerprints) ---- *)
+(* a handshake run under one pair of fingerprints is rejected under another: with different
+   prologues neither side accepts, whatever the attacker delivers; and whoever accepts used the
+   same prologue as its peer *)
+Theorem C01_webrtc_prologue_binds :
+  forall on_curve verify (H : list item -> bytes) (KDF : list bytes -> bytes)
+         (pubk : N -> bytes) (dh : N -> bytes -> bytes),
+    (forall a b, H a = H b -> a = b) ->
+    forall D L a,
+      no_forgery on_curve verify H KDF pubk dh D L a ->
+      (pro D <> pro L ->
+       (forall p, snd (run_d on_curve verify H KDF pubk dh D a) <> OAccept p) /\
+       (forall p, run_l on_curve verify H KDF pubk dh L a <> OAccept p)) /\
+      (forall p, snd (run_d on_curve verify H KDF pubk dh D a) = OAccept p -> pro D = pro L) /\
+      (forall p, run_l on_curve verify H KDF pubk dh L a = OAccept p -> pro D = pro L).
+Proof.
+  intros oc vf H KDF pubk dh Hinj D L a NF. split; [|split].
+  - exact (prologue_binds oc vf H KDF pubk dh Hinj D L a NF).
+  - intros p. exact (dialer_prologue oc vf H KDF pubk dh Hinj D L a p NF).
+  - intros p O. exact (proj1 (listener_prologue oc vf H KDF pubk dh Hinj D L a p NF O)).
+Qed.
+Print Assumptions C01_webrtc_prologue_binds.
+
+(* ---- the order of events in XX: who learns what, and when ---- *)
+(* (i) the dialer finishes first: with message 3 withheld the dialer has already accepted the
+   genuine listener while the listener ends with an I/O error (so "a connection" means both ends);
+   (ii) the listener accepts only after the dialer got as far as writing message 3;
+   (iii) the listener's message 2 is the same for all dialers that sent the same message 1: when it
+   reveals its identity it knows nothing about the dialer but an ephemeral key;
+   (iv) the dialer writes message 3 (its own identity payload) before it checks the listener's
+   signature: once the payload of message 2 decodes, message 3 is sent whatever the verdict *)
+Theorem C01_xx_order :
+  forall on_curve verify (H : list item -> bytes) (KDF : list bytes -> bytes)
+         (pubk : N -> bytes) (dh : N -> bytes -> bytes),
+    (forall a b, H a = H b -> a = b) ->
+    (forall x y, dh x (pubk y) = dh y (pubk x)) ->
+    forall D L,
+      (pro D = pro L ->
+       let a := withhold3 H KDF pubk dh D L in
+       no_forgery on_curve verify H KDF pubk dh D L a /\
+       snd (run_d on_curve verify H KDF pubk dh D a) =
+         outcome_of (check_dialed (dialed_of D) (verify_identity on_curve verify (pay L) (pubk (sta L)))) /\
+       run_l on_curve verify H KDF pubk dh L a = OIo) /\
+      (forall a p, no_forgery on_curve verify H KDF pubk dh D L a ->
+         run_l on_curve verify H KDF pubk dh L a = OAccept p ->
+         fst (run_d on_curve verify H KDF pubk dh D a) <> None) /\
+      (forall D', d_msg1 pubk D = d_msg1 pubk D' ->
+         l_msg2 H KDF pubk dh L (d_msg1 pubk D) = l_msg2 H KDF pubk dh L (d_msg1 pubk D')) /\
+      (forall m s pl pp,
+         dec (KDF (d_ks1 dh D m)) (H (d_tr1 pubk D m)) (m2_s m) = Some s ->
+         dec (KDF (d_ks2 dh D m s)) (H (d_tr2 pubk D m)) (m2_p m) = Some pl ->
+         decode_payload pl = Some pp ->
+         d_run on_curve verify H KDF pubk dh D (DMsg m) =
+           (Some (mkM3 (d_cs3 H KDF pubk dh D m s) (d_cp3 H KDF pubk dh D m s)),
+            outcome_of (check_dialed (dialed_of D) (verify_payload on_curve verify pp s)))).
+Proof.
+  intros oc vf H KDF pubk dh Hinj comm D L. split; [|split; [|split]].
+  - exact (dialer_finishes_first oc vf H KDF pubk dh comm D L).
+  - intros a p NF O. exact (proj2 (listener_prologue oc vf H KDF pubk dh Hinj D L a p NF O)).
+  - intros D'. exact (listener_answer_ignores_identity H KDF pubk dh D D' L).
+  - exact (dialer_writes_3_before_verdict oc vf H KDF pubk dh D).
+Qed.
+Print Assumptions C01_xx_order.
+
+(* ---- early data: what the dialer sends before the listener has authenticated it ---- *)
+(* composed with C02's reader: if the listener's handshake does not accept, no byte reaches its
+   application; and in every case nothing of or after the first non-authentic transport frame
+   behind message 3 is delivered (C02_read_tamper) *)
+Theorem C01_early_data :
+  forall on_curve verify (H : list item -> bytes) (KDF : list bytes -> bytes)
+         (pubk : N -> bytes) (dh : N -> bytes -> bytes)
+         (L : party) (a : attack) (e : V.C02.Model.renv) (bufs sc : list N),
+    ((forall p, run_l on_curve verify H KDF pubk dh L a <> OAccept p) ->
+     listener_app_bytes on_curve verify H KDF pubk dh L a e bufs sc = 0) /\
+    (forall j, V.C02.Proofs.wf_env e -> V.C02.Proofs.not_auth e j ->
+     listener_app_bytes on_curve verify H KDF pubk dh L a e bufs sc
+       <= V.C02.Model.pstart (V.C02.Model.e_plains e) j).
+Proof.
+  intros oc vf H KDF pubk dh L a e bufs sc. split.
+  - exact (early_data_dropped oc vf H KDF pubk dh L a e bufs sc).
+  - intros j. exact (early_data_authentic oc vf H KDF pubk dh L a e bufs sc j).
+Qed.
+Print Assumptions C01_early_data.
+
+(* ---- Dolev-Yao model: all interleavings of any number of honest dialer/listener sessions with an
+   active attacker who owns any set `asec` of DH secrets and any set `bad` of identity keys;
+   `pro` assigns a prologue to every session (indexed by its ephemeral secret), arbitrarily, so
+   sessions may disagree about it (Symbolic.v) ---- *)
+(* the attacker's knowledge never contains anything but public terms (the invariant behind all
+   secrecy statements): in particular no secret of an honest session, no identity secret of an
+   uncompromised agent, no DH output of two honest secrets and no key that mixes one *)
+Theorem C01_dy_attacker_knows_only_public :
+  forall (pro : N -> list N) (asec bad : N -> Prop) tr t,
+    DY.valid pro asec bad tr -> DY.knows asec bad tr t -> DY.pub asec bad t.
+Proof. exact DY.knows_only_public. Qed.
+Print Assumptions C01_dy_attacker_knows_only_public.
+
+(* the attacker's knowledge only grows with the trace *)
+Theorem C01_dy_knowledge_monotone :
+  forall (asec bad : N -> Prop) tr tr' t,
+    incl tr tr' -> DY.knows asec bad tr t -> DY.knows asec bad tr' t.
+Proof. exact DY.knows_mono. Qed.
+Print Assumptions C01_dy_knowledge_monotone.
+
+Theorem C01_dy_secrets_never_leak :
+  forall (pro : N -> list N) (asec bad : N -> Prop) tr,
+    DY.valid pro asec bad tr ->
+    (forall a e s, In (DY.NewD a e s) tr \/ In (DY.NewL a e s) tr ->
+       ~ DY.knows asec bad tr (DY.TSk e) /\ ~ DY.knows asec bad tr (DY.TSk s)) /\
+    (forall a, ~ bad a -> ~ DY.knows asec bad tr (DY.TIdSk a)).
+Proof.
+  intros pro asec bad tr V. split.
+  - intros a e s. exact (DY.session_secrets_never_leak pro asec bad tr a e s V).
+  - intros a. exact (DY.identity_secret_never_leaks pro asec bad tr a V).
+Qed.
+Print Assumptions C01_dy_secrets_never_leak.
+
+(* authentication, standard form: if an honest dialer session completes believing that it talks
+   to P then, unless P's identity key is compromised, P signed in one of its honest sessions the
+   very static key g^rs that this session's key is bound to; the key mixes g^(e*rs), whose
+   exponents belong to this session and to that session of P, and the attacker never knows it *)
+Theorem C01_dy_dialer_authenticates :
+  forall (pro : N -> list N) (asec bad : N -> Prop) tr a e s P rs K,
+    DY.valid pro asec bad tr -> In (DY.AcceptD a e s P rs K) tr -> ~ bad P ->
+    In (DY.Signed P (DY.signed_part rs)) tr /\
+    (exists e', In (DY.NewD P e' rs) tr \/ In (DY.NewL P e' rs) tr) /\
+    ~ asec e /\ ~ asec rs /\
+    (exists k y, K = DY.TMix (DY.TMix k (DY.dh e rs)) (DY.dh s y)) /\
+    ~ DY.knows asec bad tr K.
+Proof. exact DY.dialer_authenticates. Qed.
+Print Assumptions C01_dy_dialer_authenticates.
+
+Theorem C01_dy_listener_authenticates :
+  forall (pro : N -> list N) (asec bad : N -> Prop) tr a e s P rs K,
+    DY.valid pro asec bad tr -> In (DY.AcceptL a e s P rs K) tr -> ~ bad P ->
+    In (DY.Signed P (DY.signed_part rs)) tr /\
+    (exists e', In (DY.NewD P e' rs) tr \/ In (DY.NewL P e' rs) tr) /\
+    ~ asec e /\ ~ asec rs /\
+    (exists k, K = DY.TMix k (DY.dh e rs)) /\
+    ~ DY.knows asec bad tr K.
+Proof. exact DY.listener_authenticates. Qed.
+Print Assumptions C01_dy_listener_authenticates.
+
+(* AGREEMENT ON THE TRANSCRIPT, for any number of interleaved sessions and WITHOUT a no-forgery
+   hypothesis (the attacker's inability to make a ciphertext under a key it does not know is derived
+   from the closure rules).  Dialer: the ephemeral key g^y and the static key g^rs it received
+   belong to ONE listener session of the uncompromised P it believes in, that session HAS WRITTEN
+   message 2 in answer to this very dialer's ephemeral key (event Answered), it was created with the
+   SAME PROLOGUE (WebRTC: the same pair of DTLS fingerprints), and the message 2 the dialer accepted
+   is, component for component, that message *)
+Theorem C01_dy_dialer_agreement :
+  forall (pro : N -> list N) (asec bad : N -> Prop) tr a e s P rs K,
+    DY.valid pro asec bad tr -> In (DY.AcceptD a e s P rs K) tr -> ~ bad P ->
+    exists y, K = DY.d_key e s y rs /\ In (DY.NewL P y rs) tr /\ In (DY.Answered P y rs e) tr /\
+              pro e = pro y /\ DY.msg2_expected pro e y rs P = DY.msg2 pro P y rs e.
+Proof. exact DY.dialer_agreement. Qed.
+Print Assumptions C01_dy_dialer_agreement.
+
+(* Listener (it finishes last): a dialer session of the uncompromised P it believes in, with the
+   ephemeral key this listener answered and the static key it received, has COMPLETED, accepting
+   exactly this listener (agent a, static key g^s) with the very same session key, and was
+   created with the same prologue: mutual, injective agreement *)
+Theorem C01_dy_listener_agreement :
+  forall (pro : N -> list N) (asec bad : N -> Prop) tr a e s P rs K,
+    DY.valid pro asec bad tr -> In (DY.AcceptL a e s P rs K) tr -> ~ bad P ->
+    exists y, K = DY.l_key e s y rs /\ In (DY.NewD P y rs) tr /\ In (DY.AcceptD P y rs a s K) tr /\
+              pro e = pro y.
+Proof. exact DY.listener_agreement. Qed.
+Print Assumptions C01_dy_listener_agreement.
+
+(* the session key is shared with the holder of the authenticated static key and with nobody
+   else: the attacker never knows it (above), and an honest listener session that holds the same
+   key as an honest dialer session is the session owning the static key the dialer authenticated,
+   authenticated the dialer's static key in turn, and each is the agent the other believes in *)
+Theorem C01_dy_matching_sessions :
+  forall (pro : N -> list N) (asec bad : N -> Prop) tr a e s P rs a' e' s' P' rs' K,
+    DY.valid pro asec bad tr -> In (DY.AcceptD a e s P rs K) tr -> In (DY.AcceptL a' e' s' P' rs' K) tr ->
+    rs = s' /\ rs' = s /\ (~ bad P -> a' = P) /\ (~ bad P' -> a = P').
+Proof. exact DY.matching_sessions. Qed.
+Print Assumptions C01_dy_matching_sessions.
+
+(* every secret belongs to exactly one honest session (freshness) *)
+Theorem C01_dy_secret_owner_unique :
+  forall (pro : N -> list N) (asec bad : N -> Prop) tr ev1 ev2 x,
+    DY.valid pro asec bad tr -> In ev1 tr -> In ev2 tr -> In x (DY.names ev1) -> In x (DY.names ev2) -> ev1 = ev2.
+Proof. exact DY.owner_unique. Qed.
+Print Assumptions C01_dy_secret_owner_unique.
+
+(* non-vacuity: the honest run is a valid trace in which both sessions accept each other with the
+   same key, nobody being compromised — for every prologue assignment that gives the two sessions
+   the same prologue *)
+Theorem C01_dy_honest_run :
+  forall pro : N -> list N, pro 1 = pro 3 ->
+  DY.valid pro DY.nobody DY.nobody (DY.honest_trace pro) /\
+  In (DY.AcceptD 10 1 2 20 4 (DY.d_key 1 2 3 4)) (DY.honest_trace pro) /\
+  In (DY.AcceptL 20 3 4 10 2 (DY.l_key 3 4 1 2)) (DY.honest_trace pro) /\
+  DY.d_key 1 2 3 4 = DY.l_key 3 4 1 2.
+Proof.
+  intros pro EP.
+  split; [exact (DY.honest_trace_valid pro EP)|]. split; [right; left; reflexivity|].
+  split; [left; reflexivity|reflexivity].
+Qed.
+Print Assumptions C01_dy_honest_run.
